@@ -59,6 +59,9 @@ class ListSummaryV(object):
         self.elem = elem
 
 
+from .heap import cls_f  # noqa: E402
+
+
 class ColumnV(object):
     """universe[name]: one column of the windowed universe"""
 
@@ -361,6 +364,42 @@ class TolerantExecutor(FrameExecutor):
         if r is None and isinstance(f, BoundFn) and f.kind in ("rowm", "winm", "idxm", "modfn", "builtin"):
             return [(st, Tainted("unmodelled call", self._taint_of(*pos)))]
         return r
+
+    def expr_Call(self, e, st):
+        # copy.deepcopy(node): a fresh object of the same class, different from everything reachable before (A-DEEPCOPY); recorded in the log
+        if isinstance(e.func, ast.Name) and e.func.id == "deepcopy" and len(e.args) == 1 and "deepcopy" not in st.locals:
+            out = []
+            for (s, v) in self.eval(e.args[0], st):
+                if isinstance(v, RefV):
+                    n = RefV(dsl.fresh_ref("deepcopy_of"), v.cls)
+                    s.assume(And(n.term != dsl.NONE, n.term != v.term, cls_f(n.term) == cls_f(v.term)))
+                    for r in [x for x in s.locals.values() if isinstance(x, RefV)]:
+                        s.assume(n.term != r.term)
+                    # the copy carries the scalar settings of the original (isomorphic graph)
+                    for fld in ("integer_positions", "_fixed_income", "_bidoffer_set", "_paper_trade", "commission_fn", "_issec"):
+                        try:
+                            s.heap.set(n, fld, s.heap.get(v, fld))
+                        except Exception:
+                            pass
+                    # isomorphic and disjoint: a self-parented (root) original gives a self-parented copy, otherwise the copy hangs under
+                    # fresh copies of its ancestors; nothing that existed before belongs to the new graph
+                    from contracts.tree import treeof_f as _treeof, slot_f as _slot, cidx_f as _cidx
+
+                    np_, nr_ = RefV(dsl.fresh_ref("copied_parent"), v.cls), RefV(dsl.fresh_ref("copied_root"), v.cls)
+                    vp, vr = s.heap.get(v, "parent"), s.heap.get(v, "root")
+                    s.heap.set(n, "parent", RefV(z3.If(vp.term == v.term, n.term, np_.term), vp.cls))
+                    s.heap.set(n, "root", RefV(z3.If(vr.term == v.term, n.term, nr_.term), vr.cls))
+                    s.assume(_cidx(n.term) >= 0)
+                    s.assume(And(np_.term != dsl.NONE, nr_.term != dsl.NONE, np_.term != v.term, nr_.term != v.term, _treeof(n.term) == z3.If(vr.term == v.term, n.term, nr_.term)))
+                    for r in [v] + [x for x in s.locals.values() if isinstance(x, RefV)]:
+                        s.assume(And(_treeof(r.term) != n.term, _treeof(r.term) != nr_.term, r.term != np_.term, r.term != nr_.term,
+                                     _slot(n.term, r.term) == -1, _slot(np_.term, r.term) == -1, _slot(nr_.term, r.term) == -1))
+                    s.log.append(("deepcopy", v, (n,), s.heap.copy()))
+                    out.append((s, n))
+                else:
+                    out.append((s, Tainted("deepcopy of %s" % type(v).__name__, self._taint_of(v))))
+            return out
+        return FrameExecutor.expr_Call(self, e, st)
 
     def call_function(self, st, fi, recv, pos, kw, exact=False, via_property=False, counted=False):
         try:
